@@ -539,6 +539,10 @@ var helloConfigs = []helloConfig{
 			CipherSuites:     []uint16{tls.TLS_ECDHE_ECDSA_WITH_AES_128_GCM_SHA256, tls.TLS_ECDHE_RSA_WITH_AES_128_GCM_SHA256},
 			CurvePreferences: []tls.CurveID{tls.CurveP256}}
 	}},
+	{"tls13-kyber-hybrid", func() *tls.Config {
+		// X25519Kyber768Draft00 (0x6399): a >1 KiB hello, larger than the first read of crypto/tls
+		return &tls.Config{CurvePreferences: []tls.CurveID{tls.CurveID(0x6399), tls.X25519}, ServerName: "c19.test", NextProtos: []string{"http/1.1"}}
+	}},
 	{"tls13-p256-p384-p521", func() *tls.Config {
 		return &tls.Config{CurvePreferences: []tls.CurveID{tls.CurveP256, tls.CurveP384, tls.CurveP521}, ServerName: "c19.test", NextProtos: []string{"h2", "http/1.1"}}
 	}},
